@@ -57,6 +57,12 @@ func (bf *BanFile) Add(ip string, until *time.Time) error {
 	bf.Lock()
 	defer bf.Unlock()
 
+	// A temporary ban must not replace a permanent one that is already in force for the address (two users behind
+	// one address, the first banned permanently, the second temporarily): the address stays banned indefinitely.
+	if prev, ok := bf.banList[ip]; ok && prev == nil && until != nil {
+		return nil
+	}
+
 	bf.banList[ip] = until
 
 	out, err := yaml.Marshal(bf.banList)
